@@ -33,17 +33,31 @@ package mem2reg
 //@   tags C12 C18
 //@   nomaprange
 //
-//@ func (*phiWalker).handleIf
-//@   mode bv
-//@   tags C12 C18
-//@   nomaprange
-//
-//@ func (*phiWalker).handleSwitch
-//@   mode bv
-//@   tags C12 C18
-//@   nomaprange
-//
 //@ func initialValues
 //@   mode bv
 //@   tags C12 C18
 //@   nomaprange
+//
+// ---- every branch is renamed on its own copy of the value map (C13) ----------------------------
+//
+// The value map in force before an if / switch is the common starting point of
+// all its branches: a branch must work on a fresh copy, or a store in one
+// branch leaks into its siblings and into the phi incomings.
+//
+//@ func snapshotValues
+//@   mode bv
+//@   tags C13
+//@   ensures [fresh-map] fresh(result)
+//@   pure
+//
+//@ func (*phiWalker).handleSwitch
+//@   mode bv
+//@   tags C12 C18 C13
+//@   nomaprange
+//@   at (*phiWalker).walkBlock assert [case-has-own-map] w.currentValue != preSwitch
+//
+//@ func (*phiWalker).handleIf
+//@   mode bv
+//@   tags C12 C18 C13
+//@   nomaprange
+//@   at (*phiWalker).walkBlock assert [branch-has-own-map] w.currentValue != preIf
